@@ -25,6 +25,39 @@ from jellyfysh.state_handler.physical_state.tree_physical_state import TreePhysi
 
 assert_scratch()
 
+DEBUG_LOGGERS = ("jellyfysh.state_handler.tree_state_handler",
+                 "jellyfysh.state_handler.lifting_state.tree_lifting_state",
+                 "jellyfysh.state_handler.physical_state.tree_physical_state")
+
+
+class debug_logging:
+    """Logging is one more input dimension: the state-handler loggers are enabled for DEBUG BEFORE the state
+    handler is constructed (TreeStateHandler caches isEnabledFor(DEBUG) in __init__ / update_logging).  Nothing is
+    printed (NullHandler, no propagation); everything is restored afterwards."""
+
+    def __init__(self, on):
+        self.on = on
+        self.saved = []
+
+    def __enter__(self):
+        import logging
+        if self.on:
+            for name in DEBUG_LOGGERS:
+                lg = logging.getLogger(name)
+                h = logging.NullHandler()
+                self.saved.append((lg, lg.level, lg.propagate, h))
+                lg.addHandler(h)
+                lg.propagate = False
+                lg.setLevel(logging.DEBUG)
+        return self
+
+    def __exit__(self, *exc):
+        for lg, level, propagate, h in self.saved:
+            lg.setLevel(level)
+            lg.propagate = propagate
+            lg.removeHandler(h)
+        return False
+
 
 def vec_bits(v):
     return None if v is None else [f2b(x) for x in v]
@@ -122,6 +155,11 @@ ATTR = {"p": "position", "v": "velocity", "t": "time_stamp"}
 
 
 def run_seq(seq):
+    with debug_logging(seq.get("debug", False)):
+        return run_seq_inner(seq)
+
+
+def run_seq_inner(seq):
     sh = build(seq)
     held = []
     out = {"init": global_view(sh), "steps": []}
@@ -201,7 +239,7 @@ def run_config(cfg):
     from configparser import ConfigParser
     from jellyfysh import run as jf_run
 
-    stats = {"config": cfg["ini"], "commits": 0, "changed_between_commits": 0, "insert_not_exact": 0,
+    stats = {"config": cfg["ini"], "debug_logging": bool(cfg.get("debug", False)), "commits": 0, "changed_between_commits": 0, "insert_not_exact": 0,
              "units_inserted": 0, "examples": [], "extract_changed_state": 0, "extracts": 0}
     depth = [0]
     last_after = [None]
@@ -277,7 +315,8 @@ def run_config(cfg):
         so = sys.stdout
         sys.stdout = devnull
         try:
-            jf_run.main()
+            with debug_logging(cfg.get("debug", False)):
+                jf_run.main()
         except SystemExit:
             pass
         finally:
